@@ -7,6 +7,7 @@ import PacketVerif.Drv.Ping
 import PacketVerif.Drv.Ndp
 import PacketVerif.Drv.Icmp6Hunt
 import PacketVerif.Drv.ArpHunt
+import PacketVerif.Drv.Fastlog
 open PV
 
 /-- dispatch one protocol line to the module that knows the op -/
@@ -23,7 +24,8 @@ def dispatch (line : String) : String :=
       Drv.Ping.handle,
       Drv.Ndp.handle,
       Drv.Icmp6Hunt.handle,
-      Drv.ArpHunt.handle
+      Drv.ArpHunt.handle,
+      Drv.Fastlog.handle
     ]
     match hs.findSome? (fun h => h cmd args) with
     | some r => r
